@@ -26,6 +26,7 @@ type GenCfg struct {
 	Waitlist   int   `json:"waitlist"`
 	Orders     int   `json:"orders"`
 	EqualStake bool  `json:"equal_stake"`
+	TightSupply bool `json:"tight_supply,omitempty"` // bancor coins a few coins below their max supply, with a base-coin pool that prices them dearly
 	EqualPools bool  `json:"equal_pools,omitempty"` // some pools start with reserve0 == reserve1 (orders exactly at the pool price)
 	PriceCoin  bool  `json:"price_coin"` // commission table denominated in a custom coin
 	GenesisHr  int   `json:"genesis_hr"`
@@ -192,6 +193,15 @@ func BuildGenesis(r *rand.Rand, g GenCfg) types.AppState {
 		addPool(0, usdt.c.ID, bip, u)
 	}
 	nonLP := len(coins)
+	if g.TightSupply {
+		for _, ca := range coins {
+			if ca.c.Crr > 0 {
+				// a pool that makes the coin dear in base-coin terms: commissions are cheapest through it
+				addPool(0, ca.c.ID, pip(logUniform(r, 5, 6)), pip(logUniform(r, 2, 3)))
+				break
+			}
+		}
+	}
 	for k := 0; k < g.NPool && nonLP > 0; k++ {
 		a := uint64(0)
 		if k%2 == 1 && nonLP > 1 {
@@ -323,6 +333,9 @@ func BuildGenesis(r *rand.Rand, g GenCfg) types.AppState {
 	for _, ca := range coins {
 		ca.c.Volume = ca.volume.String()
 		mx := new(big.Int).Mul(ca.volume, big.NewInt(int64(1+r.Intn(1000))))
+		if g.TightSupply && ca.c.Crr > 0 {
+			mx = new(big.Int).Add(ca.volume, pip(float64(1+r.Intn(200))))
+		}
 		lim := new(big.Int).Mul(big.NewInt(1e15), big.NewInt(1e18))
 		if mx.Cmp(lim) > 0 || ca.c.Symbol.String()[:2] == "LP" {
 			mx = lim
@@ -426,7 +439,7 @@ type Profile struct {
 var allKinds = []string{"send", "multisend", "sell", "sellall", "buy", "createcoin", "recreatecoin", "createtoken", "recreatetoken",
 	"editcoinowner", "mint", "burn", "declare", "delegate", "unbond", "move", "seton", "setoff", "editcand", "editcandpk", "editcandcomm",
 	"createmultisig", "editmultisig", "sethalt", "voteupdate", "votecomm", "createpool", "addliq", "remliq", "sellpool", "buypool",
-	"sellallpool", "addorder", "remorder", "lockstake", "lock", "redeem", "pricevote", "unknowntype", "sellusdt", "sellbip", "dustorder", "fillorder"}
+	"sellallpool", "addorder", "remorder", "lockstake", "lock", "redeem", "pricevote", "unknowntype", "sellusdt", "sellbip", "dustorder", "fillorder", "buyheadroom"}
 
 // GeneralProfile exercises every transaction type with modest fault rates.
 func GeneralProfile() Profile {
@@ -439,6 +452,7 @@ func GeneralProfile() Profile {
 	}
 	w["sethalt"], w["voteupdate"], w["pricevote"], w["unknowntype"], w["editcandpk"] = 0, 0, 1, 1, 1
 	w["dustorder"], w["fillorder"] = 2, 4
+	w["buyheadroom"] = 2
 	return Profile{W: w, TxMin: 0, TxMax: 8, PAbsent: 0.03, PStreak: 0.02, PEvidence: 0.02, PBadNonce: 0.04, PBadSig: 0.03, PMultisig: 0.05,
 		PDup: 0.04, PGarbage: 0.02, PZeroGP: 0.02, PGasCustom: 0.2, PPayload: 0.1, PClockJump: 0.03, PWrongChain: 0.01, PBigAmt: 0.12}
 }
